@@ -34,6 +34,7 @@ class Interp:
         self.cbkind = cbkind
         self.ecb, self.ccb = w.callbacks(cbkind, self.pool_ref, raise_end, raise_cancel)
         self.rejected = []   # exceptions raised by spawn requests
+        self.cancel_ids = []  # ids successfully passed to cancel()
 
     # ------------------------------------------------------------ requests
     def _newreq(self, kind, **kw):
@@ -122,7 +123,10 @@ class Interp:
     # ------------------------------------------------------------ cancellation
     def cancel(self, *ids):
         self.w.op("cancel", *ids)
-        return self.w.do_cancel(self.pool, ids)
+        e = self.w.do_cancel(self.pool, ids)
+        if e is None:
+            self.cancel_ids += list(ids)
+        return e
 
     def _mark_cancelled(self, r):
         if not r["cancelled"]:
